@@ -945,6 +945,12 @@ var c18FracDocs = []string{
 	`{"time_zone":"UTC","tue":{"start":0.5,"end":0.5}}`,
 	`{"time_zone":"UTC","tue":{"start":0,"end":0.000001}}`,
 	`{"time_zone":"UTC","wed":{"start":3600000,"end":7200000.25}}`,
+	// a fraction below one nanosecond is cut by int64(msec * 1e6): accepted
+	`{"time_zone":"Europe/Berlin","thu":{"start":51600000.0000001,"end":58140000}}`,
+	`{"time_zone":"UTC","fri":{"start":0,"end":86400000.0000001}}`,
+	`{"time_zone":"UTC","mon":{"start":60000,"end":120000.0000009}}`,
+	// one nanosecond is not
+	`{"time_zone":"UTC","mon":{"start":60000,"end":120000.000001}}`,
 }
 
 var c18DocFieldRe = regexp.MustCompile(`"(sun|mon|tue|wed|thu|fri|sat)":\{"start":([^,}]*),"end":([^,}]*)\}`)
@@ -1470,6 +1476,7 @@ func c18EmitJSONDoc(out *vfOut, doc string, fs []c18Field) {
 		return
 	}
 	monOK, msg := true, ""
+	subNsAccepted := false
 	var back [7]*[2]string
 	days := "(@nil (Z * Z))"
 	if err == nil {
@@ -1502,8 +1509,15 @@ func c18EmitJSONDoc(out *vfOut, doc string, fs []c18Field) {
 		if bad := c18InvalidAccepted(w); bad != "" {
 			monOK, msg = false, bad
 		}
-		// the rejection clause on the document itself: every number that ends
-		// up in a range is a whole number of minutes (exact decimal value)
+		// the rejection clause on the document itself, at the resolution a
+		// time.Duration has: every number that ends up in a range, scaled to
+		// nanoseconds and truncated toward zero, is a whole number of minutes.
+		// Judged twice with math/big, never with the code under test: on the
+		// exact decimal the text denotes, and on the exact value of the
+		// float64 strconv reads the text as.  A fraction below one nanosecond
+		// disappears in the truncation and is accepted by design (class
+		// json-sub-nanosecond-fraction); a bound off a whole minute by a
+		// nanosecond or more must not be accepted.
 		last := map[[2]int]string{}
 		for _, f := range fs {
 			k := 0
@@ -1513,15 +1527,15 @@ func c18EmitJSONDoc(out *vfOut, doc string, fs []c18Field) {
 			last[[2]int{f.day, k}] = f.text
 		}
 		for _, txt := range last {
-			m := c18MsPlain.FindStringSubmatch(txt)
-			if m == nil || m[1]+m[3] == "" {
+			decNs, fltNs, subNs, ok := c18JSONBoundNs(txt)
+			if !ok {
 				continue
 			}
-			num, _ := new(big.Int).SetString(m[1]+m[3], 10)
-			den := new(big.Int).Exp(big.NewInt(10), big.NewInt(int64(len(m[3]))), nil)
-			q := new(big.Rat).Quo(new(big.Rat).SetFrac(num, den), big.NewRat(60000, 1))
-			if !q.IsInt() {
+			if decNs%int64(time.Minute) != 0 || fltNs%int64(time.Minute) != 0 {
 				monOK, msg = false, "number that is not a whole number of minutes accepted"
+			}
+			if subNs {
+				subNsAccepted = true
 			}
 		}
 	}
@@ -1537,8 +1551,45 @@ func c18EmitJSONDoc(out *vfOut, doc string, fs []c18Field) {
 			break
 		}
 	}
+	if subNsAccepted {
+		c.Classes = append(c.Classes, "json-sub-nanosecond-fraction")
+	}
 	if !monOK {
 		c.FindingKey = "json-" + msg
 	}
 	out.Emit(c)
+}
+
+// c18JSONBoundNs reads a plain decimal millisecond text at nanosecond
+// resolution in two ways, both truncated toward zero: decNs from the exact
+// decimal, fltNs from the exact value of the float64 nearest to the text
+// (times 10^6, computed without rounding).  subNs: the decimal carries a
+// non-zero part below one nanosecond.  ok=false: not a plain decimal or out of
+// range.
+func c18JSONBoundNs(txt string) (decNs, fltNs int64, subNs, ok bool) {
+	m := c18MsPlain.FindStringSubmatch(txt)
+	if m == nil || m[1]+m[3] == "" || len(m[1]+m[3]) > 40 {
+		return 0, 0, false, false
+	}
+	num, _ := new(big.Int).SetString(m[1]+m[3], 10)
+	den := new(big.Int).Exp(big.NewInt(10), big.NewInt(int64(len(m[3]))), nil)
+	p := new(big.Rat).Mul(new(big.Rat).SetFrac(num, den), big.NewRat(1000000, 1))
+	if strings.HasPrefix(txt, "-") {
+		p.Neg(p)
+	}
+	d := new(big.Int).Quo(p.Num(), p.Denom()) // big.Int.Quo truncates toward zero
+	v, err := strconv.ParseFloat(txt, 64)
+	if err != nil {
+		return 0, 0, false, false
+	}
+	fr := new(big.Rat)
+	if fr.SetFloat64(v) == nil {
+		return 0, 0, false, false
+	}
+	fr.Mul(fr, big.NewRat(1000000, 1))
+	f := new(big.Int).Quo(fr.Num(), fr.Denom())
+	if !d.IsInt64() || !f.IsInt64() {
+		return 0, 0, false, false
+	}
+	return d.Int64(), f.Int64(), !p.IsInt(), true
 }
